@@ -200,14 +200,21 @@ def gen_ops(rng, desc, thorough):
                     odesc = copy.deepcopy(desc)             # merge with a copy of the initial network
                 else:
                     odesc, _ = tn.gen_net(rng, nt_max=3, open_max=3, cap=400, refprefix="")
-                other = tn.build(odesc)
-                # shared data references: equal when possible, sometimes unequal
+                # shared data references: mostly equal (same key, same array), sometimes unequal (clash)
                 for k in list(odesc["data"]):
                     if k in scratch.data:
-                        if np.shape(scratch.data[k]) == tuple(odesc["data"][k]["shape"]) and rng.random() < 0.85:
+                        same_shape = np.shape(scratch.data[k]) == tuple(odesc["data"][k]["shape"])
+                        q = rng.random()
+                        if same_shape and q < 0.6:
                             a = np.asarray(scratch.data[k])
                             odesc["data"][k] = {"shape": list(a.shape), "re": [int(x) for x in a.real.reshape(-1)],
                                                 "im": [int(x) for x in a.imag.reshape(-1)] if np.iscomplexobj(a) else None}
+                        elif q < 0.93:
+                            k2 = "m%d_%s" % (len(ops), k)      # keep the data, use a fresh key
+                            odesc["data"][k2] = odesc["data"].pop(k)
+                            for t in odesc["tensors"]:
+                                if t[3] == k:
+                                    t[3] = k2
                 other = tn.build(odesc)
                 s1, s2 = stn.tensors[-1].shape, other.net.tensors[-1].shape
                 compat = [(a, b) for a in range(len(s1)) for b in range(len(s2)) if s1[a] == s2[b]]
